@@ -46,11 +46,13 @@ func clonerChoices() []clonerChoice {
 }
 
 func checkC06(e *core.Env) {
+	curEnv = e
 	e.SetRule("in-process calls of all kinds, both directions, cloner configurations {default, codec, clone-func, copy-func}, message shapes as C01: (1) address-disjointness walk between every object handed to the library and the object the peer obtained, (2) senders overwrite their message in place right after the send returned while the receiver is stalled, receivers scribble over what they received: neither side may observe the other's writes, (3) a hook parks the unary server goroutine before the handler decodes, the call is cancelled, Invoke returns, the caller overwrites the request, then the handler decodes, (4) destinations pre-filled in every field must equal the sent message, (5) thorough: the same under the race detector; distinct = (phase, cloner, kind, shape)")
-	runC06(e, e.N(240, 2000), false)
+	runC06(e, e.N(800, 12000), false)
 }
 
 func runC06(e *core.Env, n int, race bool) {
+	curEnv = e
 	installHooks()
 	choices := clonerChoices()
 	carriers := make([]*Carrier, len(choices))
@@ -238,6 +240,7 @@ func runC06(e *core.Env, n int, race bool) {
 
 // checkC06Dynamic: stream sends of dynamic messages (jhump) with a stalled receiver.
 func checkC06Dynamic(e *core.Env) {
+	curEnv = e
 	c := NewInproc(&Service{}, carrierOpt{})
 	defer c.Close()
 	md, err := desc.LoadMessageDescriptorForMessage(protov1.MessageV1(&tpb.Message{}))
